@@ -275,7 +275,7 @@ func init() {
 		Technique: "reference-resolver monitor for isset() and the two-value map lookup over the data graphs and access paths of C06",
 		Rule: "each case is isset(p1..pn) with 1-4 generated access paths (identifier, field, chain and index forms; variable or context base), each valid, corrupted at a random depth (missing/unexported field, index out of range, key of the wrong kind, absent key, access on a scalar), leading through or ending in nil pointers, nil maps, nil slices, nil interfaces, or indexing a map with an unhashable key; a sixth of the cases use the piped form, a quarter of the rest pipe the first argument into a '_' slot at a random position or follow an isset that swallowed a template failing half-way under a context of its own, a sixth the two-value lookup v, ok := m[k] " +
 			"over 30 (map, key) pairs incl. present keys holding zero values, nil pointers and nil interfaces, absent keys, nil maps, named and int key types, in three assignment forms; " +
-			"oracle: Execute never fails; isset renders true exactly when the reference resolver finds every argument existing and non-nil; ok equals key presence; non-trivial = several arguments or a false verdict; distinct by argument outcome tuple",
+			"oracle: Execute never fails; isset renders true exactly when the reference resolver finds every argument existing and non-nil; ok equals key presence; non-trivial = several arguments or a false verdict; distinct by argument outcome tuple Since waves 8/9: lookup forms '_, ok = m[k]' (statement, if header, inside range) with ok holding the opposite before; directed cases for nil/non-nil funcs and channels and for keys/indexes boxed in interface{} (range variables, range context, call results).",
 		Assumptions: []string{"isset arguments are limited to the expression kinds the documentation names (no calls, no slices)"},
 		NCases:      c17n,
 		RunCase:     c17run,
